@@ -181,6 +181,15 @@ impl Property for C15 {
         let joined: Vec<Vec<u8>> = if query.join.is_some() { (0..rng.range(1, 8)).map(|_| sqlgen::gen_joined_line(rng, lc.keys.min(3), 10).into_bytes()).collect() } else { Vec::new() };
         let n_lines = if huge { rng.range(4100, if thorough { 12000 } else { 5400 }) as usize } else if large { rng.range(18, if thorough { 60 } else { 40 }) as usize } else { rng.range(1, 10) as usize };
         let mut specs: Vec<sqlgen::LineSpec> = (0..n_lines).map(|_| sqlgen::gen_line_spec(rng, &cfg, &lc)).collect();
+        if !huge && specs.len() >= 2 && rng.chance(1, 4) {
+            // byte-identical lines (a log that repeats itself): copies of earlier lines at random positions
+            for _ in 0..rng.range(1, 3) {
+                let from = rng.below(specs.len());
+                let to = rng.below(specs.len());
+                let copy = specs[from].clone();
+                specs[to] = copy;
+            }
+        }
         if big_n {
             for s in specs.iter_mut().take(9) {
                 if s.n.is_some() && rng.chance(1, 2) {
@@ -427,6 +436,25 @@ impl Property for C15 {
                     return out;
                 }
                 out.probe("two_input_files", 1);
+                // part A named twice on the command line: the same as a file that holds A's lines twice
+                if !la.is_empty() {
+                    let file_a = gen::join_lines(&la, true);
+                    let mut twice = batch_spec(&defs, &stmt, &[file_a.clone()], joined.as_deref());
+                    let entry = twice.files[0].clone();
+                    twice.files.push(entry);
+                    twice.format = format.clone();
+                    let tw = run(&mut out, "part A named twice", &twice, false);
+                    let mut doubled = file_a.clone();
+                    doubled.extend_from_slice(&file_a);
+                    let mut one = batch_spec(&defs, &stmt, &[doubled], joined.as_deref());
+                    one.format = format.clone();
+                    let on = run(&mut out, "A's lines twice in one file", &one, false);
+                    if tw.terminated() && on.terminated() && (status_label(&tw.status), records(&tw)) != (status_label(&on.status), records(&on)) {
+                        out.violate("c15.split_files", format!("{}: the same input file named twice prints {} but a file holding its lines twice prints {}", stmt, show(&records(&tw)), show(&records(&on))), features.clone());
+                        return out;
+                    }
+                    out.probe("same_file_named_twice", 1);
+                }
             }
             out.fault("split", 1);
             if a.status == Status::Ok && b.status == Status::Ok {
@@ -479,6 +507,7 @@ impl Property for C15 {
         out.probe("join_statement", joined.is_some() as u64);
         out.probe("large_more_than_16_lines", (n > 16) as u64);
         out.probe("huge_more_than_4096_values_in_a_group", (n > 4096) as u64);
+        out.probe("identical_adjacent_lines", lines.windows(2).any(|w| w[0] == w[1]) as u64);
         out.probe("pattern_from_column", stmt.contains("regexp_matches(") as u64);
         out.probe("real_integer_above_2_pow_53", specs.iter().any(|s| s.r.as_ref().map(|r| r.len() >= 16 && !r.contains('.')).unwrap_or(false)) as u64);
         out.probe("timestamps_sharing_a_second", (specs.iter().filter(|s| matches!(s.d, Some((2021, 3, 4, 10, 0, _, _)))).count() >= 2) as u64);
